@@ -735,3 +735,113 @@ Proof.
           [set (row := mdd_find _ _); vm_compute in row; by subst row|]).
   by apply elem_of_nil in Hq.
 Qed.
+
+(** ** Canonicity: equal functions (on in-range assignments) have equal references *)
+Definition mlens_pos (s : mst) : Prop := ∀ v l n, mvars s !! v = Some (l, n) → 0 < n.
+
+Lemma minrange_zero s : mlens_pos s → minrange s (fun _ => 0).
+Proof. intros H v l n Hv. by apply (H v l n). Qed.
+
+Lemma minrange_iupd s I z n k : MInv s → minrange s I → mlen_at s z n → k < n →
+  minrange s (iupd I z k).
+Proof.
+  intros HI Hr Hlen Hk v l n' Hv. destruct (decide (l = z)) as [->|Hne].
+  - rewrite iupd_same. rewrite (mlen_at_inj s z n' n HI) by (done || by exists v). done.
+  - rewrite iupd_other by done. by apply (Hr v).
+Qed.
+
+Section mcanon.
+Context (s : mst) (HI : MInv s) (Hpos : mlens_pos s).
+
+(** the cofactor functions of a stored node *)
+Lemma MD_cofactor u i nodes j I : mvalid s u → mlk s (absn u) = Some (i, nodes) →
+  absn u ≠ 1%positive → nodes ≠ [] →
+  (∀ x, x ∈ nodes → mvalid s x ∧ i < mlvl_of s x) →
+  MD s u (iupd I i j) = xorb (bool_decide (u < 0)%Z) (MD s (msel nodes j) I).
+Proof.
+  intros Hu Ht Hn Hne Hch.
+  rewrite (MD_step s HI u _ i nodes Hu Ht Hn). rewrite iupd_same. f_equal.
+  destruct (Hch _ (msel_in nodes j Hne)) as [Hvc Hlc].
+  by apply MD_upd_above.
+Qed.
+
+Lemma mcanonical_aux k : ∀ u v, mvalid s u → mvalid s v →
+  mnvars s - k ≤ mlvl_of s u → mnvars s - k ≤ mlvl_of s v →
+  (∀ I, minrange s I → MD s u I = MD s v I) → u = v.
+Proof.
+  induction k as [|k IH]; intros u v Hu Hv Lu Lv Heq.
+  - destruct (mnode_cases s HI u Hu) as [[Eu _]|(i&nodes&?&?&?&Hl&?&_)]; [|lia].
+    destruct (mnode_cases s HI v Hv) as [[Ev _]|(i&nodes&?&?&?&Hl&?&_)]; [|lia].
+    specialize (Heq _ (minrange_zero s Hpos)). rewrite !MD_term in Heq by done.
+    destruct Hu, Hv. unfold absn in *.
+    repeat case_bool_decide; try done; lia.
+  - (* a node strictly above the other operand cannot denote the same function *)
+    assert (Habove : ∀ u v, mvalid s u → mvalid s v →
+               mnvars s - S k ≤ mlvl_of s u → mlvl_of s u < mlvl_of s v →
+               (∀ I, minrange s I → MD s u I = MD s v I) → False).
+    { clear u v Hu Hv Lu Lv Heq. intros u v Hu Hv Lu Luv Heq.
+      destruct (mnode_cases s HI u Hu) as [[Eu El]|(i&nodes&Ht&Hn&Hne&Hl&Hin&Hlen&Hch&Hhd&Hnae)].
+      { pose proof (mlvl_le s HI v Hv). lia. }
+      assert (H0 : 0 < length nodes) by (destruct nodes; [done|cbn; lia]).
+      apply Hnae. apply all_eq_sel. intros j Hj.
+      assert (msel nodes j = msel nodes 0) as ->; [|unfold msel; by destruct nodes].
+      destruct (Hch _ (msel_in nodes j Hne)) as [Hvj Hlj].
+      destruct (Hch _ (msel_in nodes 0 Hne)) as [Hv0 Hl0].
+      apply IH; try done; try lia. intros I Hr.
+      pose proof (Heq _ (minrange_iupd s I i _ j HI Hr Hlen Hj)) as HQj.
+      pose proof (Heq _ (minrange_iupd s I i _ 0 HI Hr Hlen H0)) as HQ0.
+      rewrite (MD_cofactor u i nodes) in HQj, HQ0 by done.
+      rewrite (MD_upd_above s HI v) in HQj, HQ0 by first [done | lia].
+      destruct (MD s (msel nodes j) I), (MD s (msel nodes 0) I), (MD s v I),
+        (bool_decide (u < 0)%Z); done. }
+    destruct (lt_eq_lt_dec (mlvl_of s u) (mlvl_of s v)) as [[Hlt|Heql]|Hgt].
+    + exfalso. by apply (Habove u v).
+    + destruct (mnode_cases s HI u Hu) as [[Eu El]|(i&nodes&Ht&Hn&Hne&Hl&Hin&Hlen&Hch&Hhd&Hnae)];
+      destruct (mnode_cases s HI v Hv) as [[Ev El']|(i'&nodes'&Ht'&Hn'&Hne'&Hl'&Hin'&Hlen'&Hch'&Hhd'&Hnae')]; try lia.
+      * specialize (Heq _ (minrange_zero s Hpos)). rewrite !MD_term in Heq by done.
+        destruct Hu, Hv. unfold absn in *. repeat case_bool_decide; try done; lia.
+      * assert (i' = i) as -> by lia.
+        pose proof (mlen_at_inj s i _ _ HI Hlen' Hlen) as Elen.
+        set (σu := bool_decide (u < 0)%Z). set (σv := bool_decide (v < 0)%Z).
+        set (su := if σu then (-1)%Z else 1%Z). set (sv := if σv then (-1)%Z else 1%Z).
+        assert (Hsel : ∀ j, j < length nodes →
+                  (su * msel nodes j = sv * msel nodes' j)%Z).
+        { intros j Hj.
+          destruct (Hch _ (msel_in nodes j Hne)) as [Hvj Hlj].
+          destruct (Hch' _ (msel_in nodes' j Hne')) as [Hvj' Hlj'].
+          destruct (MD_sign s HI σu _ Hvj) as (?&Hl1&HD1), (MD_sign s HI σv _ Hvj') as (?&Hl2&HD2).
+          apply IH; try done; try (subst su sv; rewrite ?Hl1, ?Hl2; lia).
+          intros I Hr. subst su sv. rewrite HD1, HD2.
+          pose proof (Heq _ (minrange_iupd s I i _ j HI Hr Hlen Hj)) as HQ.
+          rewrite (MD_cofactor u i nodes), (MD_cofactor v i nodes') in HQ by done.
+          done. }
+        assert (H0 : 0 < length nodes) by (destruct nodes; [done|cbn; lia]).
+        assert (Hh : msel nodes 0 = hd 0%Z nodes ∧ msel nodes' 0 = hd 0%Z nodes').
+        { unfold msel. by destruct nodes, nodes'. }
+        destruct Hh as [Hh Hh'].
+        assert (su = sv) as Es.
+        { pose proof (Hsel 0 H0) as E0. rewrite Hh, Hh' in E0.
+          subst su sv; destruct σu, σv; lia. }
+        assert (nodes = nodes') as <-.
+        { apply (nth_ext _ _ 0%Z 0%Z); [done|]. intros j Hj.
+          pose proof (Hsel j Hj) as Ej. rewrite Es in Ej.
+          rewrite <- (msel_lt nodes j 0%Z), <- (msel_lt nodes' j 0%Z) by lia.
+          subst sv. destruct σv; lia. }
+        assert (absn u = absn v) as Eabs.
+        { assert (mpred s !! ((i, nodes) : mtuple) = Some (absn u)) as H1
+            by (by apply (minv_pred _ HI)).
+          assert (mpred s !! ((i, nodes) : mtuple) = Some (absn v)) as H2
+            by (by apply (minv_pred _ HI)).
+          congruence. }
+        subst su sv σu σv. destruct Hu as [Hu0 _], Hv as [Hv0 _]. unfold absn in Eabs.
+        repeat case_bool_decide; try done; lia.
+    + exfalso. apply (Habove v u); try done; try lia.
+      intros I Hr. symmetry. by apply Heq.
+Qed.
+
+Theorem mdd_canonical u v : mvalid s u → mvalid s v →
+  (∀ I, minrange s I → MD s u I = MD s v I) → u = v.
+Proof.
+  intros Hu Hv. apply (mcanonical_aux (mnvars s)); try done; lia.
+Qed.
+End mcanon.
